@@ -109,8 +109,8 @@ theorem uBuild_spec (C : UCfg) (P : Params) (ep : Nat → Nat × Nat) (ns : List
         · exact r2 y hy
 
 theorem circ1_apply (nil : Nat) (prev : Nat → Nat) (a v t : Nat) :
-    circ1 nil prev a v t = if t = a ∧ prev a = nil then v else prev t := by
-  unfold circ1 upd
+    upd prev a (circVal nil prev a v) t = if t = a ∧ prev a = nil then v else prev t := by
+  unfold circVal upd
   by_cases e : t = a
   · subst e
     by_cases h : prev t = nil <;> simp [h]
